@@ -779,13 +779,15 @@ func (s *Server) notifySubscribedSessions(subscribers map[*ServerSession]jsonrpc
 	if len(subscribers) == 0 {
 		return
 	}
-	ctx, cancel := context.WithTimeout(context.Background(), 10*time.Second)
-	defer cancel()
 	for sess, reqID := range subscribers {
 		params := makeParams()
 		injectMetaSubscriptionID(params, reqID)
 		req := newRequest(sess, params)
-		if err := handleNotify(ctx, method, req); err != nil {
+		// The timeout is per session, as in notifySessions.
+		ctx, cancel := context.WithTimeout(context.Background(), 10*time.Second)
+		err := handleNotify(ctx, method, req)
+		cancel()
+		if err != nil {
 			s.opts.Logger.Warn(fmt.Sprintf("calling %s: %v", method, err))
 		}
 	}
